@@ -396,10 +396,12 @@ pub enum Expect<'a> {
     Free,
 }
 
-pub const F6A: &str = "F6a suppressed packet with BV channel in a C-bank accepted";
-pub const F6B: &str = "F6b suppressed packet whose channel differs from its bank name accepted";
-pub const F6C: &str = "F6c duplicated C-bank with suppressed packets accepted";
-pub const F6D: &str = "F6d duplicated C-bank with waveforms not longer than the delay accepted";
+// The four input classes of the former finding F6 (repaired in /repo by commit 851d684); they
+// are ordinary "must be rejected" cases now.
+pub const F6A: &str = "suppressed packet with a BV channel in a C-bank";
+pub const F6B: &str = "suppressed packet whose channel differs from its bank name";
+pub const F6C: &str = "duplicated C-bank with suppressed packets";
+pub const F6D: &str = "duplicated C-bank with waveforms not longer than the delay";
 
 pub fn add(s: &mut Session, gen: &'static str, run: u32, banks: &Banks, expect: Expect) {
     let (imp, ev) = run_impl(run, banks);
@@ -411,11 +413,7 @@ pub fn add(s: &mut Session, gen: &'static str, run: u32, banks: &Banks, expect: 
             Expect::Free => {}
             Expect::MustReject(cause) => {
                 if ev.is_some() {
-                    why = Some(if cause.starts_with("F6") || cause.starts_with("X") {
-                        cause.to_string()
-                    } else {
-                        format!("accepted but must be rejected: {cause}")
-                    });
+                    why = Some(format!("accepted but must be rejected: {cause}"));
                 }
             }
             Expect::Consistent(spec) => match (want(spec), &ev) {
@@ -786,7 +784,8 @@ fn injections(s: &mut Session, rng: &mut Rng, run: u32) {
     }
 }
 
-/// The four input classes of finding F6 and their rejected counterparts with long waveforms.
+/// The four input classes of the former finding F6, their counterparts with long waveforms and
+/// the mixed duplicates (all must be rejected).
 fn f6_classes(s: &mut Session, rng: &mut Rng, run: u32) {
     let a16 = a16_boards();
     let d = delay_of(run, false);
@@ -830,7 +829,7 @@ fn f6_classes(s: &mut Session, rng: &mut Rng, run: u32) {
     let banks = vec![(name.clone(), longp.clone()), (name.clone(), short.clone()), trg.clone()];
     add(s, "f6-mixed", run, &banks, Expect::MustReject("duplicated wire bank (long waveform first, short second)"));
     let banks = vec![(name.clone(), short), (name.clone(), longp), trg.clone()];
-    add(s, "f6-mixed", run, &banks, Expect::MustReject("F6e duplicated C-bank, waveform not longer than the delay first and a long one second, accepted (the reverse order is rejected)"));
+    add(s, "f6-mixed", run, &banks, Expect::MustReject("duplicated wire bank (short waveform first, long second)"));
 }
 
 /// A PWB packet whose own MAC / AFTER letter differ from what its chunk headers (and the bank
@@ -846,16 +845,22 @@ fn inner_identity(s: &mut Session, rng: &mut Rng, run: u32) {
     let req = (delay_of(run, true) + 3) as u16;
     let sent = vec![(20u16, wave(rng, req as usize))];
     let trg = ("ATAT".to_string(), trg_bytes(rng, 5));
+    // only where the consistent packet of board b1 alone is acceptable (otherwise two groups fail
+    // for different reasons and the reported error depends on the HashMap order)
+    let alone = Spec { run, ts: 5, wires: vec![], pads: vec![PwbSpec { board: b1, chip: 0, req, sent: sent.clone(), chunk_size: 4000 }] };
+    if !matches!(want(&alone), Want::Accept(_)) {
+        return;
+    }
     // chunk header and name: board b1, chip 0; packet inside: board b2
     let payload = pwb_payload(rng, pwb[b2].1, b'A', req, &sent);
     let mut banks = chunk_banks(rng, &pc_name(&pwb[b1].0), &payload, 4000, pwb[b1].2, 0);
     banks.push(trg.clone());
-    add(s, "pwb-inner-board", run, &banks, Expect::MustReject("X1 PWB packet whose MAC names another board than its chunk headers and bank name accepted"));
+    add(s, "pwb-inner-board", run, &banks, Expect::MustReject("PWB packet whose MAC names another board than its chunk headers and bank name (former finding F10/X1)"));
     // chunk header: chip 0; packet inside: letter C
     let payload = pwb_payload(rng, pwb[b1].1, b'C', req, &sent);
     let mut banks = chunk_banks(rng, &pc_name(&pwb[b1].0), &payload, 4000, pwb[b1].2, 0);
     banks.push(trg.clone());
-    add(s, "pwb-inner-chip", run, &banks, Expect::MustReject("X2 PWB packet whose AFTER letter differs from the chip of its chunk headers accepted"));
+    add(s, "pwb-inner-chip", run, &banks, Expect::MustReject("PWB packet whose AFTER letter differs from the chip of its chunk headers (former finding F10/X2)"));
     // two packets under different (consistent-looking) chunk headers that name the same board and
     // chip inside: the same pads twice
     let payload1 = pwb_payload(rng, pwb[b1].1, b'A', req, &sent);
